@@ -3,6 +3,7 @@ package main
 import (
 	"fmt"
 	"runtime"
+	"strings"
 	"sync"
 	"time"
 
@@ -22,7 +23,9 @@ type Case struct {
 	Ops     int      `json:"ops,omitempty"`
 	Close   bool     `json:"close,omitempty"`
 	Reenter bool     `json:"reenter,omitempty"`
-	HeapOps []string `json:"ops,omitempty"` // kind "heap": operations on the queue alone
+	HeapOps []string `json:"ops,omitempty"`     // kind "heap": operations on the queue alone
+	TD      []string `json:"td,omitempty"`      // kind "timedomain": a, c, b<i>, deqb<i>, adv10, adv20
+	Extreme bool     `json:"extreme,omitempty"` // random: some scheduled times are corners of the time domain
 }
 
 func (c Case) String() string {
@@ -34,6 +37,9 @@ func (c Case) String() string {
 	}
 	if c.Kind == "close2" {
 		return "close2"
+	}
+	if c.Kind == "timedomain" {
+		return "timedomain:" + strings.Join(c.TD, ",")
 	}
 	return fmt.Sprintf("random:seed=%d,w=%d,n=%d,close=%v,reenter=%v", c.Seed, c.Workers, c.Ops, c.Close, c.Reenter)
 }
@@ -206,6 +212,8 @@ func runCase(c Case) []Ev {
 		w.runRandom(c)
 	case "close2":
 		w.runClose2()
+	case "timedomain":
+		w.runTimeDomain(c)
 	}
 	w.finish()
 	return w.events()
@@ -314,16 +322,78 @@ func (w *World) runClose2() {
 	wait(g3, "close2")
 }
 
+// timeDomainCases: ordinary items a (key 1 @ 10 ms) and c (key 3 @ 20 ms) mixed with an item b<i> (key
+// 10+i) scheduled at the i-th corner of the time domain, enqueued before, between and after them; all
+// corners together. Expected of ANY correct implementation: far-past items run at once, a and c run at
+// 10 and 20 ms whatever is queued behind them, far-future items just stay queued.
+func timeDomainCases() []Case {
+	var cs []Case
+	for i := range boundaryTimes {
+		b := fmt.Sprintf("b%d", i)
+		cs = append(cs,
+			Case{Kind: "timedomain", TD: []string{b}},
+			Case{Kind: "timedomain", TD: []string{b, "a", "c"}},
+			Case{Kind: "timedomain", TD: []string{"a", b, "c"}},
+			Case{Kind: "timedomain", TD: []string{"a", "c", b}},
+			Case{Kind: "timedomain", TD: []string{b, "a", "deq" + b, "c"}},
+			Case{Kind: "timedomain", TD: []string{"a", b, "adv10", "c", "adv20"}},
+		)
+	}
+	var all, rev []string
+	for i := range boundaryTimes {
+		all = append(all, fmt.Sprintf("b%d", i))
+		rev = append([]string{fmt.Sprintf("b%d", i)}, rev...)
+	}
+	cs = append(cs,
+		Case{Kind: "timedomain", TD: append(append([]string{}, all...), "a", "c")},
+		Case{Kind: "timedomain", TD: append([]string{"a", "c"}, rev...)},
+		Case{Kind: "timedomain", TD: append(append([]string{"a"}, all...), "c")},
+	)
+	return cs
+}
+
+func (w *World) runTimeDomain(c Case) {
+	for _, op := range c.TD {
+		switch {
+		case op == "a":
+			w.enqueue(1, 10*ms)
+		case op == "c":
+			w.enqueue(3, 20*ms)
+		case op == "adv10":
+			w.advance(10 * ms)
+		case op == "adv20":
+			w.advance(20 * ms)
+		case strings.HasPrefix(op, "deqb"):
+			var i int
+			fmt.Sscanf(op, "deqb%d", &i)
+			w.dequeue(10 + i)
+		case strings.HasPrefix(op, "b"):
+			var i int
+			fmt.Sscanf(op, "b%d", &i)
+			w.api.Add(1)
+			w.p.Enqueue(&item{key: 10 + i, at: boundaryTimes[i%len(boundaryTimes)], id: -1})
+			w.api.Add(-1)
+		default:
+			panic("unknown timedomain op " + op)
+		}
+		if !w.settleOr("timedomain-" + op) {
+			return
+		}
+		w.quiet()
+	}
+}
+
 type rop struct {
 	kind string // enq deq adv yield close
 	key  int
 	off  int64 // enq: offset from the clock at execution time; adv: increment
+	bi   int   // enq: index+1 of a corner of the time domain to use instead (0 = none)
 }
 
 var enqOffsets = []int64{-1 * ms, 0, 300000, 600000, 1 * ms, 2 * ms, 2 * ms, 5 * ms, 9 * ms}
 var advSteps = []int64{200000, 500000, 1 * ms, 1 * ms, 3 * ms, 7 * ms}
 
-func genOps(r *lib.Rand, n int, withClose bool) []rop {
+func genOps(r *lib.Rand, n int, withClose, extreme bool) []rop {
 	ops := make([]rop, 0, n+1)
 	closeAt := -1
 	if withClose {
@@ -335,7 +405,11 @@ func genOps(r *lib.Rand, n int, withClose bool) []rop {
 		}
 		switch x := r.Intn(10); {
 		case x < 5:
-			ops = append(ops, rop{kind: "enq", key: r.Intn(4), off: enqOffsets[r.Intn(len(enqOffsets))]})
+			o := rop{kind: "enq", key: r.Intn(4), off: enqOffsets[r.Intn(len(enqOffsets))]}
+			if extreme && r.Intn(5) == 0 {
+				o.bi = 1 + r.Intn(len(boundaryTimes))
+			}
+			ops = append(ops, o)
 		case x < 7:
 			ops = append(ops, rop{kind: "deq", key: r.Intn(4)})
 		case x < 9:
@@ -358,7 +432,7 @@ func (w *World) runRandom(c Case) {
 	}
 	lists := make([][]rop, c.Workers)
 	for i := range lists {
-		lists[i] = genOps(r.Fork(), c.Ops, c.Close && i == 0)
+		lists[i] = genOps(r.Fork(), c.Ops, c.Close && i == 0, c.Extreme)
 	}
 	var wg sync.WaitGroup
 	var advMu sync.Mutex // clock increments are relative: serialise read-modify-write
@@ -374,7 +448,11 @@ func (w *World) runRandom(c Case) {
 			for _, o := range ops {
 				switch o.kind {
 				case "enq":
-					w.p.Enqueue(&item{key: o.key, at: w.clk.Now().Add(time.Duration(o.off)), id: -1})
+					at := w.clk.Now().Add(time.Duration(o.off))
+					if o.bi > 0 {
+						at = boundaryTimes[o.bi-1]
+					}
+					w.p.Enqueue(&item{key: o.key, at: at, id: -1})
 				case "deq":
 					w.p.Dequeue(o.key)
 				case "adv":
@@ -419,9 +497,13 @@ func (w *World) nextLiveTime() (int64, bool) {
 	}
 	best, ok := int64(0), false
 	for _, id := range live {
-		at := byID[id].At
-		if at > now && (!ok || at < best) {
-			best, ok = at, true
+		t := byID[id].AtT
+		// only items within an hour of the clock: a far-future item is not waited for
+		if t.After(w.clk.Now()) && t.Before(w.clk.Now().Add(time.Hour)) {
+			at := ns(w.base, t)
+			if at > now && (!ok || at < best) {
+				best, ok = at, true
+			}
 		}
 	}
 	return best, ok
